@@ -20,7 +20,7 @@ def run(ctx):
         "every call runs on an evaluator whose key set holds exactly the Galois keys the library advertises for that call (a recording rlwe.EvaluationKeySet); a request outside the list or an error is a violation",
         "bgv: 2x8 (plaintext ring smaller than ciphertext ring, with and without P) and 2x16 (equal rings); ckks: 32 slots full, 8/2/1 slots sparse, conjugate-invariant ring, a set without P; all (batch, n) with n*batch <= slots",
         "huge rotation amounts (2^40, 2^62, MaxInt64, MinInt64+1) are reduced modulo the row length by the harness with math/big",
-        "Trace is not covered",
+        "Trace: rlwe evaluator on rings of degree 16, 32, 64 (NTT and coefficient-domain ciphertexts, with and without P) and on conjugate-invariant rings of degree 16 and 32, every depth logN in [0, LogN), input and receiver at equal and different levels, in place and into a receiver holding unrelated data; the plaintext has non-zero integer coefficients scaled by 2^30, read back coefficient by coefficient",
     ]
     d = scratch('c11-mc')
     stage_specs(d)
@@ -29,6 +29,13 @@ def run(ctx):
     r = tlc(d, 'MC_GaloisMC', timeout=2400)
     ctx.add_mc(r, 'GaloisMC')
     log("[c11] group laws / tree: %d states" % r.distinct)
+    for skip in (False, True):
+        write_mc(d, 'MC_GaloisTraceMC', 'GaloisTraceMC', dict(MaxLogN=4 if ctx.quick else 5, SkipLast=skip), ['SPECIFICATION TSpec', 'INVARIANT TraceTheorem', 'INVARIANT CountOK'])
+        r = tlc(d, 'MC_GaloisTraceMC', timeout=2400)
+        if not skip:
+            ctx.add_mc(r, 'GaloisTraceMC')
+        elif 'TraceTheorem' not in r.violated:
+            raise Inconclusive("the mutant trace loop (conjugate-invariant ring, one doubling short) does not violate TraceTheorem: the invariant is vacuous")
     d = scratch('c11')
 
     def job(i):
